@@ -248,6 +248,20 @@ Theorem C08_progress_dnssl : forall lbl_ok v have i, cap v = len v -> (i <= len 
 Proof. exact progress_dnssl_loop. Qed.
 Print Assumptions C08_progress_dnssl.
 
+(* the same with the validation written as it is in the code: a third-party transformation
+   [to_unicode] (puny.ToUnicode) of the wire label followed by tests of the DECODED text.  The
+   cursor of the model advances by the WIRE length (1 + length octet), so progress and the bounds
+   hold for an ARBITRARY decoded string: the cursor must not depend on it (seeded C08-9 advanced by
+   the decoded length and overran the option for an A-label that expands) *)
+Theorem C08_progress_dnssl_any_decoding : forall (to_unicode : bytes -> bytes) (wire_ok decoded_ok : bytes -> bool) v have i,
+  cap v = len v -> (i <= len v)%nat ->
+  let lbl_ok := fun l => wire_ok l && decoded_ok (to_unicode l) in
+  (exists r, forall f, dnssl_loop lbl_ok (S f) v i have = r) \/
+  (exists i' have', (i + 2 <= i')%nat /\ (i' <= len v)%nat /\
+                    forall f, dnssl_loop lbl_ok (S f) v i have = dnssl_loop lbl_ok f v i' have').
+Proof. intros to_unicode wire_ok decoded_ok. exact (progress_dnssl_loop _). Qed.
+Print Assumptions C08_progress_dnssl_any_decoding.
+
 Theorem C08_progress_hopbyhop : forall data pos, wf data -> (pos <= len data)%nat ->
   iteration (fun f pos => hbh_loop f data pos) (fun pos pos' => (pos < pos')%nat /\ (pos' < len data)%nat) pos.
 Proof. exact progress_hbh_loop. Qed.
